@@ -24,7 +24,7 @@ for name in sorted(os.listdir(root)):
     meta = json.load(open(mp))
     summ = meta.get("summary", "").replace("|", "/").replace("\n", " ")
     summ = summ if len(summ) < 230 else summ[:227] + "..."
-    origin = "own" if name.startswith("self-") else ("sub-agent, round 2" if name.endswith("b") else "sub-agent")
+    origin = "own" if name.startswith("self-") else ("sub-agent, round 2" if name.endswith("b") else ("sub-agent, round 3" if name.endswith("c") else "sub-agent"))
     for chk, det, sigs, other in res.get(name, [("?", "not run", "", "")]):
         other = re.sub(r" x\d+", "", other)
         if len(other) > 160:
